@@ -71,6 +71,20 @@ ZeroScripts ==
            << NewReader("z", r, TRUE) >> \o Flatten([j \in 1..4 |-> << ReadCall("z", r, raws[j], TRUE, TRUE, FALSE), ReadReact(r, j, raws[j], TRUE, TRUE, FALSE) >>]), "zero")
     \* <<format, M, B, raw>>: unsigned 0; one's complement +0 and -0; two's complement 0 and an offset that cancels (2 * -5 + 10)
     : lin \in 0..11, v \in { <<0, 3, 0, 0>>, <<1, 3, 0, 0>>, <<1, 3, 0, 255>>, <<2, 3, 0, 0>>, <<2, 2, 10, 251>>, <<0, 1, -7, 7>> } }
+\* readers built one after another from records decoded into one shared record value: each reader must keep converting
+\* with the factors, format and linearisation of the record it was built from
+SharedScripts ==
+  { LET ra == Rec(la, fa, 3 + k, 10 + k, 1, -1, 0, 60)
+        rb == Rec(lb, fb, 100 + 7 * k, -200 + k, -2, 2, 0, 61)
+        rc == Rec(0, 0, 1, 0, 0, 0, 0, 62)
+        nr(name, r) == [NewReader(name, r, TRUE) EXCEPT !.args = @ @@ [sharedRecord |-> TRUE]]
+        raws == << 200, 17, 255 >> IN
+    Script("shared-" \o ToString(k) \o "-" \o ToString(la) \o ToString(fa) \o ToString(lb) \o ToString(fb),
+           << nr("a", ra), nr("b", rb), nr("c", rc) >>
+           \o Flatten([j \in 1..3 |-> << ReadCall("a", ra, raws[j], TRUE, TRUE, FALSE), ReadReact(ra, 3 * j - 2, raws[j], TRUE, TRUE, FALSE),
+                                         ReadCall("b", rb, raws[j], TRUE, TRUE, FALSE), ReadReact(rb, 3 * j - 1, raws[j], TRUE, TRUE, FALSE),
+                                         ReadCall("c", rc, raws[j], TRUE, TRUE, FALSE), ReadReact(rc, 3 * j, raws[j], TRUE, TRUE, FALSE) >>]), "shared")
+    : k \in 1..3, la \in {0, 7, 9}, fa \in {0, 2}, lb \in {0, 1}, fb \in {1} }
 \* C10 for a command addressed to a non-zero LUN: the responder answers from that LUN, first with node busy / timeout,
 \* then with the reading; the library must re-send the same request and return the first final answer
 BusyReact(r, j, cc) ==
@@ -84,7 +98,7 @@ LunScripts ==
            << NewReader("l", r, TRUE), call(1), ReadReact(r, 1, 77, TRUE, TRUE, FALSE),
               call(2), BusyReact(r, 2, 192), ReadReact(r, 3, 77, TRUE, TRUE, FALSE),
               call(3), BusyReact(r, 4, 195), BusyReact(r, 5, 192), ReadReact(r, 6, 77, TRUE, TRUE, FALSE) >>, "lun") : lun \in 0..3 }
-Scripts == CASE Family = "sweep" -> Sweeps [] Family = "misc" -> RefusalScripts \cup FlagScripts \cup Factors \cup ZeroScripts [] Family = "lun" -> LunScripts
+Scripts == CASE Family = "sweep" -> Sweeps [] Family = "misc" -> RefusalScripts \cup FlagScripts \cup Factors \cup ZeroScripts \cup SharedScripts [] Family = "lun" -> LunScripts
 Header == [header |-> TRUE, family |-> "sensor", defs |-> SessionDefs(S), stable |-> <<"SIK", "kB", "kR">>,
            session |-> SessionRecipes(S), prefixes |-> [hs |-> HandshakeSteps(S)]]
 ASSUME PrintT(<<"HEADER", ToJson(Header)>>)
